@@ -269,34 +269,6 @@ orc_x86_load_constants_outer (OrcX86Target *t, OrcCompiler *c)
   orc_x86_init_accumulators (t, c);
   orc_compiler_emit_invariants (c);
   orc_x86_init_constants (t, c);
-
-  /* FIXME ldreslinb, ldreslinl, ldresnearb, ldresnearl
-   * are special opcodes that require more initialization
-   * but their flags are shared among more opcodes. These
-   * opcodes should have specific flags to proceed accordingly
-   */
-
-  {
-    for (int i = 0; i < c->n_insns; i++) {
-      OrcInstruction *insn = c->insns + i;
-      OrcStaticOpcode *opcode = insn->opcode;
-
-      if (strcmp (opcode->name, "ldreslinb") == 0
-          || strcmp (opcode->name, "ldreslinl") == 0
-          || strcmp (opcode->name, "ldresnearb") == 0
-          || strcmp (opcode->name, "ldresnearl") == 0) {
-        if (c->vars[insn->src_args[1]].vartype == ORC_VAR_TYPE_PARAM) {
-          orc_x86_emit_mov_memoffset_reg (c, 4,
-              (int)ORC_STRUCT_OFFSET (OrcExecutor, params[insn->src_args[1]]),
-              c->exec_reg, c->vars[insn->src_args[0]].ptr_offset);
-        } else {
-          orc_x86_emit_mov_imm_reg (c, 4,
-              c->vars[insn->src_args[1]].value.i,
-              c->vars[insn->src_args[0]].ptr_offset);
-        }
-      }
-    }
-  }
 }
 
 static void
@@ -324,6 +296,36 @@ orc_x86_load_constants_inner (OrcCompiler *c)
       default:
         orc_compiler_error (c, "bad vartype");
         break;
+    }
+  }
+
+  /* This runs once per row of a 2-D program, so that the resampling
+   * accumulator restarts for every row. */
+  /* FIXME ldreslinb, ldreslinl, ldresnearb, ldresnearl
+   * are special opcodes that require more initialization
+   * but their flags are shared among more opcodes. These
+   * opcodes should have specific flags to proceed accordingly
+   */
+
+  {
+    for (i = 0; i < c->n_insns; i++) {
+      OrcInstruction *insn = c->insns + i;
+      OrcStaticOpcode *opcode = insn->opcode;
+
+      if (strcmp (opcode->name, "ldreslinb") == 0
+          || strcmp (opcode->name, "ldreslinl") == 0
+          || strcmp (opcode->name, "ldresnearb") == 0
+          || strcmp (opcode->name, "ldresnearl") == 0) {
+        if (c->vars[insn->src_args[1]].vartype == ORC_VAR_TYPE_PARAM) {
+          orc_x86_emit_mov_memoffset_reg (c, 4,
+              (int)ORC_STRUCT_OFFSET (OrcExecutor, params[insn->src_args[1]]),
+              c->exec_reg, c->vars[insn->src_args[0]].ptr_offset);
+        } else {
+          orc_x86_emit_mov_imm_reg (c, 4,
+              c->vars[insn->src_args[1]].value.i,
+              c->vars[insn->src_args[0]].ptr_offset);
+        }
+      }
     }
   }
 }
